@@ -19,6 +19,9 @@ def run(out, tier, seed, prop="C02"):
     C.tlc_must_pass(r, "MC_Ideal")
     out.add_tlc(r)
     out.extra["mc_ideal_states"] = r.distinct
+    # L1 (authenticate PAE(header, nonce, ciphertext, footer, assertion) with a full-length tag) refines L0's acceptance
+    # rule against a byte-level attacker; broken variants of the construction must be rejected (non-vacuity)
+    C.refinement(out, prop.lower(), tier == "thorough")
     d = C.ensure_dir(os.path.join(C.BUILD, prop.lower()))
     f = os.path.join(d, "trace.ndjson")
     p = C.harness(["tokens", "--mode", "tamper", "--out", f, "--tier", tier, "--seed", str(seed)], timeout=7200)
